@@ -233,21 +233,19 @@ func Validate(bit int, x string) bool {
 	return ok
 }
 
-// Enter records that function id was entered and, from the stack, the call site (caller function and line).
+// Enter records that function id was entered and, from the stack, the line of the call site in the program's main.go
+// (compiler-generated wrapper frames are elided by the runtime).
 func Enter(id int) {
 	pcs := make([]uintptr, 8)
 	n := runtime.Callers(3, pcs) // 0 Callers, 1 Enter, 2 enter (prelude), 3 the entered function
 	fr := runtime.CallersFrames(pcs[:n])
-	self, _ := fr.Next()
-	var desc string
-	for {
-		c, more := fr.Next()
-		if c.Function == "" {
-			break
+	_, more := fr.Next()
+	desc := ""
+	if more {
+		c, _ := fr.Next()
+		if strings.HasSuffix(c.File, "main.go") && !strings.Contains(c.File, "/cmd/") {
+			desc = fmt.Sprintf("%d|%d", c.Line, id)
 		}
-		desc = fmt.Sprintf("%s|%d|%s", c.Function, c.Line, self.Function)
-		break
-		_ = more
 	}
 	mu.Lock()
 	entered[id] = true
